@@ -61,7 +61,13 @@ def generate(ctx):
         nd = rng.randint(0, 2)
         yield {"part": "isi", "T": rng.choice([1, 2, 3, 5, 12, 40]), "pop": [rng.randint(1, 3) for _ in range(nd)],
                "p": rng.choice([0.0, 0.05, 0.3, 0.7, 1.0]), "dt": rng.choice([1.0, 0.5, 0.1, 1.3]),
-               "seed": rng.randrange(1 << 30), "force_empty_rows": rng.random() < 0.4}
+               "seed": rng.randrange(1 << 30), "force_empty_rows": rng.random() < 0.4,
+               # the raster's own element type (a spike raster may come as bool, 0/1 integers or 0/1 floats of any width)
+               "raster_dtype": rng.choice(["bool", "bool", "float32", "float16", "bfloat16", "int64", "uint8"])}
+        if rng.random() < 0.08:
+            # a long, sparse recording: spike times beyond what a half-precision float can count
+            yield {"part": "isi", "T": 2100, "pop": [2], "p": 0.003, "dt": rng.choice([1.0, 0.5]), "seed": rng.randrange(1 << 30),
+                   "force_empty_rows": False, "raster_dtype": rng.choice(["float16", "bfloat16", "bool", "float32"])}
     for _ in range(700 if th else 60):
         yield {"part": "vp", "n": [rng.randint(0, 6) for _ in range(3)], "seed": rng.randrange(1 << 30),
                "costs": sorted(rng.choice([0.01, 0.1, 0.5, 1.0, 2.0, 5.0, 50.0]) for _ in range(3)),
@@ -309,13 +315,20 @@ def _isi(ctx, desc):
     sp = torch.rand(pop + (T,), generator=g) < desc["p"]
     if desc["force_empty_rows"] and sp.numel() > T:
         sp.view(-1, T)[0] = False
+    rdt = desc.get("raster_dtype", "bool")
+    if T > 2048 and sp.numel():
+        sp.view(-1, T)[-1, [5, 17, 2049, 2051, 2054, T - 1]] = True      # late, closely spaced spikes
     counts = sp.view(-1, T).sum(-1)
     C = int(counts.max()) if counts.numel() else 0
     ctx.case(f"isi/T{min(T, 6)}/nd{len(pop)}/C{min(C, 4)}/ragged{int(bool((counts != C).any()))}/dt{dt}")
     ctx.count("isi_cases")
+    raster = sp if rdt == "bool" else sp.to({"float32": torch.float32, "float16": torch.float16, "bfloat16": torch.bfloat16,
+                                             "int64": torch.int64, "uint8": torch.uint8}[rdt])
+    if rdt != "bool":
+        ctx.count("isi_rasters_in_other_dtypes")
     try:
-        last = inferno.isi(sp, dt, time_first=False)
-        first = inferno.isi(sp.movedim(-1, 0), dt, time_first=True)
+        last = inferno.isi(raster, dt, time_first=False)
+        first = inferno.isi(raster.movedim(-1, 0), dt, time_first=True)
     except Exception as e:  # noqa: BLE001
         ctx.violation(ctx.exc_signature(e, f"isi.C{min(C, 2)}"), f"{type(e).__name__}: {str(e)[:120]}", desc)
         return
